@@ -311,7 +311,27 @@ fn sys_umask_main<S: ShellSystem>(env: &mut Env<S>, args: Vec<Field>) -> Pin<Box
     })
 }
 
+/// `sys_getumask`: the mask as the system has it (umask(0), then umask(old)).
+fn sys_getumask_main<S: ShellSystem>(env: &mut Env<S>, _args: Vec<Field>) -> Pin<Box<dyn Future<Output = BResult> + '_>> {
+    Box::pin(async move {
+        let old = if REAL_CHILD.load(Ordering::SeqCst) {
+            unsafe {
+                let old = libc::umask(0);
+                libc::umask(old);
+                old as u32
+            }
+        } else {
+            let old = env.system.umask(Mode::empty());
+            env.system.umask(old);
+            old.bits() as u32
+        };
+        let _ = env.system.write_all(Fd::STDOUT, format!("{:03o}", old).as_bytes()).await;
+        BResult::new(ExitStatus(0))
+    })
+}
+
 fn register<S: ShellSystem>(env: &mut Env<S>) {
+    env.builtins.insert("sys_getumask", Builtin::new(Type::Mandatory, sys_getumask_main::<S>));
     env.builtins.insert("mark", Builtin::new(Type::Mandatory, mark_main::<S>));
     env.builtins.insert("getrlimit", Builtin::new(Type::Mandatory, getrlimit_main::<S>));
     env.builtins.insert("sys_umask", Builtin::new(Type::Mandatory, sys_umask_main::<S>));
@@ -366,7 +386,7 @@ fn quote(a: &str) -> String {
 }
 
 fn is_call(cmd: &[String]) -> bool {
-    matches!(cmd[0].as_str(), "getrlimit" | "setrlimit" | "sys_umask")
+    matches!(cmd[0].as_str(), "getrlimit" | "setrlimit" | "sys_umask" | "sys_getumask")
 }
 
 /// One command followed by its mark.  `times` is a special built-in: with
@@ -551,6 +571,11 @@ fn do_calls(sys: &dyn CallSys, calls: &[Vec<String>], nrb: usize) -> Vec<String>
             "getrlimit" => sys.get(a(1)),
             "setrlimit" => sys.set(a(1), a(2), a(3)),
             "sys_umask" => sys.umask(u32::from_str_radix(a(1), 8).unwrap_or(0)),
+            "sys_getumask" => {
+                let old = sys.umask(0);
+                sys.umask(u32::from_str_radix(&old, 8).unwrap_or(0));
+                old
+            }
             other => format!("unknown call {other}"),
         });
     }
@@ -657,14 +682,15 @@ fn step_json(c: &[String], o: &Obs) -> Value {
 
 /// Does the observation equal alternative `alt` exactly?  `open`: the
 /// alternative has a text without canonical form ("?").
-fn equals_alt(alt: &Value, entry: &[Vec<String>], obs: &[Obs], nw: usize) -> (bool, bool) {
+fn equals_alt(alt: &Value, w: &[Vec<String>], entry: &[Vec<String>], obs: &[Obs]) -> (bool, bool) {
+    let nw = w.len();
     let mut open = false;
     let exp = alt["o"].as_array().cloned().unwrap_or_default();
     let rb = strs(&alt["rb"]);
     for (i, o) in obs.iter().enumerate() {
         if i < nw {
-            // the witness: successful, silent
-            if o.st != 0 || !o.out.is_empty() || o.err {
+            // the witness: successful, silent (a call: "ok")
+            if o.st != 0 || o.out != if is_call(&w[i]) { "ok" } else { "" } || o.err {
                 return (false, false);
             }
         } else if i < nw + entry.len() {
@@ -778,7 +804,7 @@ fn replay_state(sys: &str, plat: &Value, line: &Value, judge: &Mutex<Option<std:
         let mut exact = false;
         let mut open = false;
         for a in &alts {
-            let (eq, op) = equals_alt(a, entry, obs, w.len());
+            let (eq, op) = equals_alt(a, &w, entry, obs);
             if eq && !op {
                 exact = true;
             }
@@ -870,7 +896,8 @@ fn random_mode(rng: &mut StdRng) -> String {
                     }
                 }
                 13..=18 => c.push_str(pick(rng, &["u", "g", "o"])),
-                _ => c.push_str(pick(rng, &["t", "z", "ug", "ru", "7"])),
+                _ if rng.gen_range(0..3) == 0 => c.push_str(pick(rng, &["t", "z", "ug", "ru", "7"])),
+                _ => {}
             }
         }
         clauses.push(c);
@@ -888,7 +915,7 @@ fn random_sh_cmd(rng: &mut StdRng, sys: &str, sup: &[String]) -> Vec<String> {
     match rng.gen_range(0..100) {
         0..=34 => {
             let m = if rng.gen_range(0..6) == 0 {
-                let d = rng.gen_range(1..=4);
+                let d = if rng.gen_range(0..12) == 0 { 4 } else { rng.gen_range(1..=3) };
                 (0..d).map(|_| pick(rng, &["0", "1", "2", "3", "4", "5", "6", "7", "7", "0", "2", "8"])).collect::<String>()
             } else {
                 random_mode(rng)
@@ -948,6 +975,10 @@ fn random_sh_cmd(rng: &mut StdRng, sys: &str, sup: &[String]) -> Vec<String> {
                 14 => c.push("unlimited".into()),
                 15 => c.push("hard".into()),
                 16 => c.push("soft".into()),
+                17 if sys == "real" && ["f", "t", "n", "d", "v", "s", "u"].contains(&res_l.as_str()) => {
+                    let f: u64 = safe_values(sys, &res_l)[0].parse().unwrap_or(1 << 20);
+                    c.push((f * 4096).to_string());
+                }
                 17 => c.push(pick(rng, &["18014398509481983", "18014398509481984", "36028797018963967", "36028797018963968",
                                          "18446744073709551614", "18446744073709551616", "99999999999999999999999"]).to_string()),
                 18 => c.push(pick(rng, &["x", "1.5", "", "0x10", "1e3", "Hard"]).to_string()),
@@ -975,6 +1006,7 @@ fn random_call(rng: &mut StdRng, sys: &str) -> Vec<String> {
             let (a, b) = (raw(rng), raw(rng));
             vec!["setrlimit".into(), l, a, b]
         }
+        9 if rng.gen_range(0..2) == 0 => vec!["sys_getumask".into()],
         _ => vec!["sys_umask".into(), format!("{:03o}", rng.gen_range(0..512))],
     }
 }
@@ -996,7 +1028,29 @@ fn random(args: &[String]) {
             calls.push(((0..n).map(|_| random_call(&mut rng, &sys)).collect(), 0));
         } else {
             let n = rng.gen_range(len / 2..=len);
-            sh.push((0..n).map(|_| random_sh_cmd(&mut rng, &sys, &sup)).collect());
+            let mut seq = vec![];
+            for _ in 0..n {
+                let c = random_sh_cmd(&mut rng, &sys, &sup);
+                // the kernel-level state right after every command that may set something
+                let rb: Option<Vec<String>> = match c[0].as_str() {
+                    "umask" if c.len() > 1 => Some(vec!["sys_getumask".into()]),
+                    "ulimit" => {
+                        let l = c.iter().skip(1).take_while(|a| a.starts_with('-') && a.as_str() != "--")
+                            .filter(|a| !a.starts_with("--"))
+                            .flat_map(|a| a[1..].chars().map(|ch| ch.to_string()).collect::<Vec<_>>())
+                            .filter(|ch| LETTERS.contains(&ch.as_str()))
+                            .last()
+                            .unwrap_or_else(|| "f".to_string());
+                        Some(vec!["getrlimit".into(), l])
+                    }
+                    _ => None,
+                };
+                seq.push(c);
+                if let Some(rb) = rb {
+                    seq.push(rb);
+                }
+            }
+            sh.push(seq);
         }
     }
     // shell layer: 25 sequences per shell process, each in a subshell
